@@ -22,6 +22,8 @@ def base_models(tmpdir):
     emp["teams"] = emp["teams"] + [{"name": "TMX", "targets": [], "workers": []}]
     emp["workplaces"] = [{"name": "WPX", "cap": 1.0, "targets": [], "facilities": []}]
     out.append((emp, "empty-team-and-workplace"))
+    done = F.with_teams({"tasks": [{"name": "T0", "work": 2.0, "progress": 1.0}, {"name": "T1", "work": 1.0, "progress": 1.0}], "links": [[0, 1, "FS"]]}, "POOL1")
+    out.append((done, "everything-done-from-the-start"))  # a result of length zero
     out += [(sp, sp["label"]) for sp in F.scale_specs() if sp["label"] in ("scale:8components",)]
     # a parent project with a sub-project task (configured from a saved, successfully simulated project)
     sub = F.with_teams({"tasks": [{"name": "T0", "work": 2.0}, {"name": "T1", "work": 1.0}], "links": [[0, 1, "FS"]]}, "POOL1")
@@ -45,7 +47,11 @@ def start_project(spec, sim_absence):
             if hasattr(t, "set_all_attributes_from_json") and t.file_path:
                 t.set_all_attributes_from_json(remove_absence_time_list=False)
                 t.set_work_amount_progress_of_unit_step_time(m.project.unit_timedelta)
-    if backward:
+    if sim_absence and sim_absence[0] == "resumed":
+        # a run stopped at step 2 and continued with state and logs kept
+        m.project.simulate(max_time=2, absence_time_list=list(sim_absence[1:]))
+        m.project.simulate(max_time=40, absence_time_list=list(sim_absence[1:]), initialize_state_info=False, initialize_log_info=False)
+    elif backward:
         m.project.backward_simulate(max_time=40, absence_time_list=list(sim_absence))
     else:
         m.project.simulate(max_time=40, absence_time_list=list(sim_absence))
@@ -316,9 +322,11 @@ def run(tier, seed):
         depth = 2 if tier == "quick" else 3
         items = []
         for sp, label in base_models(tmpdir):
-            for sim_abs in ((), (1,), (0, 2), (1, 30, 31), (1, 3, 1, 40), (2, 2), ("back", 1), ("back", 1, 3, 40, 41)):
+            for sim_abs in ((), (1,), (0, 2), (1, 30, 31), (1, 3, 1, 40), (2, 2), ("back", 1), ("back", 1, 3, 40, 41), ("resumed",), ("resumed", 3)):
+                if tier == "quick" and label.startswith("scale:") and sim_abs not in ((), (1,), ("back", 1), ("resumed",)):
+                    continue  # (the medium-sized model takes four of the ten start states in the quick tier)
                 items.append((sp, label, sim_abs, depth, tier))
-        col = engines.fanout(items, work, seed=seed, chunks_per_proc=2)
+        col = engines.fanout(sorted(items, key=lambda it: 0 if it[1].startswith("scale:") else 1), work, seed=seed, chunks_per_proc=12)
     finally:
         shutil.rmtree(tmpdir, ignore_errors=True)
     meta = {
